@@ -40,3 +40,8 @@ chk("C06",
     "Reference-model monitor over sequential operation sequences (Set / SetWithTTL / Delete / loading Get / virtual-time steps / ticks / probes; costs 1..room and deliberately above MaxSize through Set, the cost function and the loader; doorkeeper and cost function on/off; plain and loading caches; MaxSize 1..100). The generator keeps model occupancy (live + expired-unreclaimed keys) within MaxSize, so the oracle may demand: Set false only for oversize / doorkeeper first sight and then nothing changes, Set true immediately readable, every live key readable at every probe, never EVICTED, fresh entry after an expired value, oversize values never resident and never displacing anything, reload after an oversize load; final quiescent invariants.",
     "Sequential client (event order = operation order). The cached clock is refreshed at every virtual time step, as a healthy ticker does. TTL-less Set over a still-running TTL is unspecified and not asserted.",
     "reference-model monitor (sequential model with occupancy) over generated histories under virtual time")
+
+chk("C16",
+    "Per-goroutine tallies of Get calls / values returned / loader runs are compared with Stats() after concurrent mixed phases (1-32 goroutines, same-key bursts on fresh keys, short TTLs, Len and early-stopping Range mixed in), for plain and loading caches; after a quiet phase and Wait, Len, the full Range, early-stop Range, EstimatedSize and a Get of every key in the universe are cross-checked (cost encoded in the value).",
+    "For loading caches a shared load and a hit cannot be told apart at the client boundary, so Hits is bounded (loads <= Misses, Hits <= gets that did not run the loader) while Hits+Misses == gets is exact.",
+    "conservation check of counters against per-goroutine operation tallies + cross-view consistency at quiescent points")
